@@ -13,6 +13,7 @@ exact u128 feerate of `validate_beneficial_value`               `impliedFeerate`
 `SimpleValidator::validate_onchain_tx` (output loop, sums)       `classifyStep`, `chanStep`, `outLoop`, `sumInputs`, `validateOnchain`
 `SimpleValidator::validate_beneficial_value`                     `beneficialValue`
 `Node::check_onchain_tx` (weight lower bound, fee velocity)      `weightLowerBound`, `checkOnchain`
+`Approve::handle_proposed_onchain` (approver flow)               `flowOnchain`
 
 External facts are inputs (computed by the harness from the scenario it generated, not by calling the
 functions under test): whether the wallet can spend a script at a path (`none` = `can_spend` returned
@@ -250,6 +251,24 @@ def checkOnchain (p : Policy) (vc : Velocity.VC) (now : Nat) (r : Req) : Velocit
         | some (vc', false) => (vc', if p.flt.feeRange then .err .feeRange else .ok nb)
     | res => (vc, res)
 
+/-- outcome of the whole signer-side flow `Approve::handle_proposed_onchain` (+ `unchecked_sign_onchain_tx`
+    when it returns `Ok(true)`): the approver is consulted **only** on `UnknownDestinations` and only about the
+    destinations; every other answer of `check_onchain_tx` is final. -/
+inductive FlowRes
+  | signed                 -- Ok(true): the caller goes on to sign
+  | declined               -- Ok(false): the approver refused the unknown destinations
+  | refused (t : Tag)      -- Err(failed_precondition)
+  | panic
+deriving DecidableEq, Repr
+
+def flowOnchain (p : Policy) (vc : Velocity.VC) (now : Nat) (r : Req) (approve : Bool) :
+    Velocity.VC × FlowRes :=
+  match checkOnchain p vc now r with
+  | (vc', .ok _) => (vc', .signed)
+  | (vc', .unknown _) => (vc', if approve then .signed else .declined)
+  | (vc', .err t) => (vc', .refused t)
+  | (vc', .panic) => (vc', .panic)
+
 /-! ### Specification-level classification (independent of the policy filter) -/
 
 inductive OutClass
@@ -300,6 +319,13 @@ def Accepted (o : Out) : Prop :=
   | .wallet | .xpubAllow | .scriptAllow => True
   | .channel c => ChanOk o c
   | _ => False
+
+/-- the checks of `validate_onchain_tx` that do not concern destinations -/
+def NonDestChecks (p : Policy) (r : Req) : Prop :=
+  (p.flt.fmtStandard = true → r.version = 2) ∧
+  (p.flt.maxSize = true → r.baseSize ≤ Gen.Onchain.maxOnchainTxSize) ∧
+  (anyChannel r.outs = true → r.segwit.all id = true ∧ r.nInputs = r.segwit.length) ∧
+  (∀ o ∈ r.outs, Accepted o ∨ classify o = .unknown)
 
 /-- the tags a non-permissive filter must keep as errors for the C08 argument -/
 def Filter.Strict (f : Filter) : Prop :=
